@@ -37,8 +37,9 @@ RULE = ("one case = (operation instance, aspect); operation instances: 4 plate g
         "RandomScorer, DBAL kernel and GaussianDBALScorer with a triple budget below C(n,3), KPerSample policy, select_next_plate, "
         "score_chunk with / without rng, sampling.sample on the two legacy Gibbs models, and the 4 CLI main()s in-process with --seed; "
         "inputs are random small screens built from a per-case seed; each instance is executed twice with the same seed under "
-        "different global-generator states with all numpy.random module functions and default_rng trapped.  Non-trivial: the "
-        "operation made at least one draw request or a trapped call (feature 'draws'); distinct by canonical description.")
+        "different global-generator states with all numpy.random module functions and default_rng trapped.  Trivial: the operation "
+        "refused its input (raised) in both runs; operations that legitimately make no draw (feature 'no-draws', e.g. MergeMin) are "
+        "kept, since absence of hidden draws is what is checked; distinct by canonical description (operation, parameters, aspect).")
 THEOREMS = {
     "C18_explicit_stream": "run p answers = Ok (o, reqs) => any answer list agreeing on the first |reqs| answers gives the same output and request trace",
     "C18_exec_is_replay": "executing p against ANY generator state machine (any state type) = replaying p on the answers that run produced; |answers| = |requests|",
@@ -440,7 +441,7 @@ def build(d):
             for pid in un:
                 h.add_score(pid, float(g.random()))
             pol = KPerSamplePlatePolicy(d["k"]) if d["k"] else None
-            p = select_next_plate(h, sc, pol, batch_plate_ids=d["batch"], rng=S.rng(seed))
+            p = select_next_plate(h, sc, pol, batch_plate_ids=d["batch"], rng=None if d.get("norng") else S.rng(seed))
             return None if p is None else int(p.plate_id)
         return f
     if k == "score_chunk":
@@ -557,7 +558,7 @@ def build(d):
 ASPECTS = ["repeatable", "global-state", "given-generator"]
 _CACHE = {}
 # the one documented unseeded fallback: the *caller* chose to pass no generator (rng=None)
-DOCUMENTED_FALLBACK = {"score_chunk": "scoring/main.py:score_chunk"}
+DOCUMENTED_FALLBACK = {"score_chunk": "scoring/main.py:score_chunk", "select_next_plate": "scoring/main.py:select_next_plate"}
 
 
 def core_of(desc):
@@ -600,6 +601,8 @@ def op_name(d):
         return k + ":" + d["model"]
     if k in ("score_chunk", "cli_calculate_scores"):
         return k + ":" + d["scorer"] + (":rng=None" if d.get("norng") else "")
+    if k == "select_next_plate" and d.get("norng"):
+        return k + ":rng=None"
     return k
 
 
@@ -645,11 +648,14 @@ def judge(desc):
     feats = [d["kind"], op, a] + (["draws"] if (n_req or traps) else ["no-draws"])
     if isinstance(r1["out"], list) and r1["out"][:1] == ["raised"]:
         feats.append("raises:" + r1["out"][1])
+        if r1["out"] == r2["out"] and not traps:
+            feats.append("trivial")
     if allowed:
         feats.append("documented-unseeded-fallback")
     pred = sig = None
     if a == "repeatable":
-        skip_out = bool(allowed) and d.get("scorer") != "SizeScorer"   # no generator was given: premise of the property not met
+        # rng=None with a scorer that draws: no generator was given, the premise of the property is not met
+        skip_out = bool(allowed) and d["kind"] == "score_chunk" and d["scorer"] != "SizeScorer"
         if r1["out"] != r2["out"] and not skip_out:
             pred = "%s: two runs with identical inputs and identically seeded generator (seed %s) give different outputs" % (op, d.get("seed"))
             causes = [classify_trap(d, e) for e in glob + unseeded]
@@ -713,7 +719,8 @@ def conformance(d, r1):
     k = d["kind"]
     if k not in ("random_scorer", "random_holdout", "balanced_holdout", "dbal_vectorized") or len(r1["gens"]) != 1:
         return None, None
-    if isinstance(r1["out"], list) and r1["out"][:1] == ["raised"]:
+    raised = isinstance(r1["out"], list) and r1["out"][:1] == ["raised"]
+    if raised and k != "dbal_vectorized":
         return None, None
     g = r1["gens"][0]
     reqs = [_req_wire(n, a, kw) for n, a, kw, _ in g.raw]
@@ -736,7 +743,9 @@ def conformance(d, r1):
         plates = [[[int(i) for i in np.flatnonzero(p.selection_vector)], bool(p.is_observed)] for p in sc.plates]
         return [2, plates, fr, answers], [held, reqs]
     if k == "dbal_vectorized":
-        return [3, d["n_thetas"], d["max_combos"], answers], [[int(x) for x in np.asarray(g.raw[0][3]).tolist()] if g.raw else [], reqs]
+        # output of the modelled part = the sub-sampled combination indices (the scores computed from them are C05's)
+        out = [1, 4] if (raised and r1["out"][1] == "ValueError") else [0, [int(x) for x in np.asarray(g.raw[0][3]).tolist()]]
+        return [3, d["n_thetas"], d["max_combos"], answers], [out, reqs]
     return None, None
 
 
@@ -775,12 +784,64 @@ def run(desc):
         if wire is not None:
             feats.append("trace-conformance")
     n_req = sum(len(g.requests) for g in r1["gens"])
+    op = op_name(d)
+    _SEEN[op] = max(_SEEN.get(op, 0), n_req)
     res = dict(wire=wire, impl=impl if wire is not None else dict(out_digest=hashlib.sha1(json.dumps(r1["out"], sort_keys=True, default=str).encode()).hexdigest()[:12],
                                                                   requests=n_req, trapped=len(r1["trapped"])),
                pred=pred, features=feats, sig=sig)
     if wire is not None:
         res["cmp"] = _cmp_conf
     return res
+
+
+def shrink(desc):
+    sc = desc.get("screen")
+    if sc and sc["n_rows"] > max(4, sc["n_samples"]):
+        yield dict(desc, screen=dict(sc, n_rows=max(4, sc["n_samples"], sc["n_rows"] // 2)))
+    if desc["kind"] in ("sample", "cli_train_model"):
+        for key, lo in (("n_burnin", 0), ("thin", 1), ("n_thetas", 1), ("dim", 1)):
+            if desc.get(key, lo) > lo:
+                yield dict(desc, **{key: desc[key] - 1})
+
+
+EXPECTED_OPS = [
+    "sparse_cover", "pairwise", "plate_permutation", "sample_segregating", "smoother:MergeMin", "smoother:MergeTopBottom",
+    "smoother:FixedSize", "smoother:OptimalSize", "smoother:NPlatePerCellLine", "smoother:BatchieEnsemble", "random_holdout",
+    "balanced_holdout", "random_scorer", "dbal_vectorized", "dbal_scorer", "policy_filter", "select_next_plate",
+    "score_chunk:RandomScorer", "score_chunk:RandomScorer:rng=None", "score_chunk:GaussianDBALScorer", "sample:SparseDrugCombo",
+    "cli_prepare", "cli_calculate_scores:RandomScorer", "cli_train_model:SparseDrugCombo", "cli_select_next_plate"]
+# operations that must have been seen making draw requests on a seeded generator at least once (otherwise the check is hollow)
+MUST_DRAW = ["sparse_cover", "pairwise", "plate_permutation", "sample_segregating", "smoother:FixedSize", "smoother:OptimalSize",
+             "smoother:BatchieEnsemble", "random_holdout", "balanced_holdout", "random_scorer", "dbal_vectorized", "dbal_scorer",
+             "score_chunk:RandomScorer", "score_chunk:GaussianDBALScorer", "cli_prepare"]
+_SEEN = {}
+
+
+def extra(tier):
+    out = []
+    # 1. the traps are live: a module-level draw and an argument-less default_rng() made by the harness itself are logged,
+    #    and the global-state comparison sees the draw
+    def probe(S):
+        np.random.normal(0.0, 1.0)
+        np.random.default_rng()
+        pyrandom.random()
+        return 0
+    r = observe(probe, 4242)
+    ok = r["trapped_outside"] == 2 and r["np_changed"] and r["py_changed"] and not r["trapped"]
+    out.append(("trap-selftest", ok, "outside=%d np_changed=%s py_changed=%s" % (r["trapped_outside"], r["np_changed"], r["py_changed"])))
+    r = observe(lambda S: 0, 4243)
+    out.append(("trap-selftest-quiet", (not r["np_changed"]) and (not r["py_changed"]) and r["trapped_outside"] == 0, "idle operation leaves the states alone"))
+    # 2. the recording generator does not change the stream
+    a = recording(ORIG_DEFAULT_RNG(99), "t")
+    b = ORIG_DEFAULT_RNG(99)
+    same = (a.random() == b.random() and a.choice(50, 7, replace=False).tolist() == b.choice(50, 7, replace=False).tolist()
+            and a.permutation(9).tolist() == b.permutation(9).tolist() and float(a.normal()) == float(b.normal()))
+    out.append(("recording-generator-same-stream", bool(same) and len(a.requests) == 4, "requests=%d" % len(a.requests)))
+    # 3. every operation named by the property was exercised, and those that draw were seen drawing
+    missing = [o for o in EXPECTED_OPS if o not in _SEEN]
+    hollow = [o for o in MUST_DRAW if not _SEEN.get(o)]
+    out.append(("operations-covered", not missing and not hollow, "missing=%s never-drew=%s" % (missing, hollow)))
+    return out
 
 
 def signature(desc, res):
@@ -795,7 +856,7 @@ def _screen_spec(rng, plates="mixed", observed="some", big=False):
 
 
 def gen(rng, tier):
-    reps = 1 if tier == "quick" else 6
+    reps = 3 if tier == "quick" else 24
 
     def emit(core):
         for a in ASPECTS:
@@ -830,6 +891,8 @@ def gen(rng, tier):
             nth = rng.randint(4, 8)
             yield from emit(dict(kind="dbal_vectorized", seed=rng.randrange(2 ** 31), data_seed=rng.randrange(10 ** 6), n_plates=rng.randint(1, 4), n_thetas=nth,
                                  n_exp=rng.randint(1, 4), max_combos=rng.randint(1, math.comb(nth, 3) - 1)))
+        yield from emit(dict(kind="dbal_vectorized", seed=rng.randrange(2 ** 31), data_seed=rng.randrange(10 ** 6), n_plates=1, n_thetas=rng.randint(0, 2),
+                             n_exp=1, max_combos=rng.randint(1, 5)))
         for i in range(4):
             yield from emit(dict(kind="dbal_scorer", seed=rng.randrange(2 ** 31), data_seed=rng.randrange(10 ** 6), screen=_screen_spec(rng, observed="some"),
                                  n_thetas=rng.randint(4, 6), max_triples=rng.randint(1, 3), max_chunk=rng.randint(1, 3)))
@@ -837,7 +900,7 @@ def gen(rng, tier):
             yield from emit(dict(kind="policy_filter", seed=rng.randrange(2 ** 31), screen=_screen_spec(rng, plates="per-sample", observed=rng.choice(["none", "some"])),
                                  k=rng.randint(1, 3), batch=sorted(rng.sample(range(6), rng.randint(0, 2)))))
         for i in range(4):
-            yield from emit(dict(kind="select_next_plate", seed=rng.randrange(2 ** 31), data_seed=rng.randrange(10 ** 6),
+            yield from emit(dict(kind="select_next_plate", seed=rng.randrange(2 ** 31), data_seed=rng.randrange(10 ** 6), norng=(i == 3),
                                  screen=_screen_spec(rng, plates="per-sample", observed="some"), k=rng.choice([0, 1, 2]), batch=sorted(rng.sample(range(6), rng.randint(0, 2)))))
         for scorer in ["RandomScorer", "GaussianDBALScorer", "SizeScorer"]:
             for norng in [False, True]:
